@@ -4,31 +4,48 @@ import json, collections
 READY = True
 
 META = {
-    "technique": "Lean 4 proof (fuel tracker + per-instruction charging over the executed instruction trace, every u64 budget) "
-                 "+ cost table regenerated from vm/fuel.rs + differential runs on real instruction traces",
+    "technique": "Lean 4 proof (generic interpreter loop around the fuel tracker: non-interference, call trees, trace model, every u64 "
+                 "budget) + cost table, tracker-use list and track site regenerated from the sources + differential runs on real "
+                 "instruction traces",
     "category": "proof",
-    "text": "Kernel-checked theorems about the model of FuelTracker::{new,track,remaining,consumed} and of the VM's "
-            "charge-before-dispatch loop: for every executed instruction trace and every budget B < 2^64 there is one threshold "
-            "thr(trace) (0 if nothing is charged, total cost + 1 otherwise) such that B >= thr dispatches exactly the unlimited run "
-            "and consumes exactly total(trace), B < thr ends out of fuel after a proper prefix; consumed + remaining = B at every "
-            "point and after every outcome; consumption does not depend on the budget; a nested evaluation continues with the "
-            "caller's tracker so costs add up. The per-instruction cost table is regenerated from vm/fuel.rs on every run. The tie "
-            "runs ~2400 (quick) / ~26000 (thorough) programs (loops, macros, call blocks, imports, includes, inheritance, super, self.block, macros "
-            "called from Rust, State::render_block/call_macro from Rust functions, every nested-evaluation edge in emit position and in 12 "
-            "expression/captured positions, failing renders, expressions, random compositions) on the real engine: the executed trace is "
-            "recorded through a verif_hooks callback, the threshold is found by bisection, every budget in [0, thr+8] and the "
-            "extremes 2^31, 2^32, 2^63-1, 2^63, 2^63+1, 2^64-2, 2^64-1 are rendered with render_captured and compared with the "
-            "model (outcome, fuel_levels, number of dispatched instructions, levels seen by probe() calls inside nested "
-            "evaluations); the oracle checks the property itself on the engine's results.",
+    "text": "Kernel-checked theorems. (1) Trace level: model of FuelTracker::{new,track,remaining,consumed}; for every executed "
+            "instruction trace and every budget B < 2^64 there is one threshold thr(trace) (0 if nothing is charged, total cost + 1 "
+            "otherwise): B >= thr dispatches exactly the unlimited run and consumes exactly total(trace), B < thr ends out of fuel "
+            "after a proper prefix; consumed + remaining = B at every point and after every outcome; consumption does not depend on "
+            "the budget. (2) Machine level: for EVERY machine (arbitrary state, arbitrary fetch/dispatch functions that do not "
+            "receive the tracker) interleaved with the tracker like eval_impl (track before dispatch, error aborts) and every "
+            "terminating unlimited run (normal end or a dispatch error e): the limited run's instructions and states are a prefix of "
+            "the unlimited run's, all of them iff B >= thr; at or above thr the result is the same final state or the SAME error e, "
+            "below thr it is out-of-fuel (fuel_does_not_steer, machine_threshold_exact). (3) Nesting: interpreter activations that "
+            "start nested activations sharing the tracker (macro, include, block, super, render_block/call_macro) are modelled as "
+            "call trees of arbitrary depth; running over the tree = running over its flattened trace (call_tree_flattens), and the "
+            "nested machine has the threshold of the flattened tree (nested_threshold_exact). (4) out_of_fuel_is_sticky: after an "
+            "out-of-fuel the tank is and stays empty, so after a Rust callback swallowed the error every later charged instruction "
+            "is refused again; zero_budget_refuses. (5) Source ties proved by decide against tables regenerated on every run: the "
+            "per-instruction cost table; uses_as_modelled (every occurrence of fuel_tracker / FuelTracker / fuel_levels / .track( / "
+            ".remaining() / .consumed() / .fuel() / set_fuel / State::new( in minijinja/src and minijinja-contrib/src outside "
+            "vm/fuel.rs is one of: Environment configuration, State::new creating it from env.fuel(), the single borrow+track in "
+            "eval_impl, State::fuel_levels — no copy, restore or other reader); track_before_dispatch (loop, fetch, hook, borrow, "
+            "ctx_ok!(track), match instr in this order, once each). The differential tie runs ~2900 (quick) / ~26000 (thorough) "
+            "programs on the real engine (loops, macros, call blocks, imports, includes, inheritance, super, self.block, "
+            "render_block/call_macro/Value::call from Rust, every nested-evaluation edge in emit position and 12 expression/captured "
+            "positions, Rust callbacks that swallow the error of a nested evaluation, failing renders, expressions, random "
+            "compositions): executed trace through a verif_hooks callback, threshold by bisection, every budget in [0, thr+8] and "
+            "2^31, 2^32, 2^63-1, 2^63, 2^63+1, 2^64-2, 2^64-1 through render_captured, compared with the model (outcome, "
+            "fuel_levels, number of dispatched instructions, levels seen by probe() inside nested evaluations, empty tank after a "
+            "swallowed error); the oracle checks the property itself on the engine's results.",
     "design_ref": "DESIGN.md §3 C13",
-    "level_note": "Trusted: Lean kernel; the hand transcription of vm/fuel.rs FuelTracker into MJ/Model/Fuel.lean (validated on every "
-                  "scanned budget incl. the u64 extremes); lib/tables/c13.py (cost table extraction); the verif_hooks instruction "
-                  "callback placed in eval_impl right before tracker.track (cross-checked against the compiled instruction list "
-                  "for straight-line templates). The VM itself is not modelled: the run is abstracted to its executed "
-                  "instruction trace, and 'fuel does not steer control flow' (a limited run dispatches a prefix of the unlimited "
-                  "trace) is validated on every scanned run, not proved. Reading of 'fails with an out-of-fuel error': the root "
-                  "cause of the reported error (source() chain) is OutOfFuel and only the engine's nesting wrappers BadInclude / "
-                  "EvalBlock are around it (an error raised inside an include, import or parent block is always reported that way).",
+    "level_note": "Trusted: Lean kernel; the hand transcription of the four FuelTracker methods into MJ/Model/Fuel.lean (validated on "
+                  "every scanned budget incl. the u64 extremes and budget 0); lib/tables/c13.py (regex extraction of the cost table, "
+                  "the tracker uses and the eval_impl landmarks); the verif_hooks instruction callback (cross-checked against the "
+                  "compiled instruction list for straight-line templates). The concrete VM state and dispatch are not transcribed: "
+                  "they are covered by the universally quantified machine theorems, whose only hypothesis about the real code — the "
+                  "dispatch does not read or write the tracker and nested activations get the same State — is tied by "
+                  "uses_as_modelled/track_before_dispatch and additionally validated on every scanned run (limited run = prefix of "
+                  "the unlimited trace). User callbacks can read State::fuel_levels (public API) and can swallow errors; the first "
+                  "is outside the model (the harness's probe() does it without steering), for the second only stickiness is claimed. "
+                  "Reading of 'fails with an out-of-fuel error': the root cause of the reported error (source() chain) is OutOfFuel "
+                  "and only the engine's nesting wrappers BadInclude / EvalBlock are around it.",
 }
 
 U64 = 2 ** 64
@@ -110,7 +127,12 @@ def check_program(r, case, p, res, model):
 
     # ---------------- oracle ----------------
     consumed_ok = set()
-    for (b, tag, c, rem, n, mismatch, nprobes, pbad, pmono) in runs:
+    swallow = p.get("swallow", False)
+    for (b, tag, c, rem, n, mismatch, nprobes, pbad, pmono, swallowed, sticky_bad) in runs:
+        if swallowed:
+            r.hist["checks"]["runs_with_swallowed_error"] += 1
+        if sticky_bad:
+            r.oracle_failure(case, f"budget {b}: after an out-of-fuel error inside a nested evaluation (swallowed by a Rust callback) the state reports remaining fuel != 0", "swallowed-oof-tank-not-empty")
         where = "below" if b < thr else "at-or-above"
         if is_out_of_fuel(tag):
             r.hist["out_of_fuel_error_chain"][tag.split(":")[1]] += 1
@@ -128,7 +150,7 @@ def check_program(r, case, p, res, model):
             r.oracle_failure(case, f"budget {b}: {pbad} of {nprobes} probe() calls saw levels that do not add up to the budget", f"probe-levels-sum:{brange(b)}:{where}")
         if not pmono:
             r.oracle_failure(case, f"budget {b}: consumed fuel seen by successive probe() calls / the final state decreases (nested evaluation does not charge the render's tracker)", "probe-consumed-decreases:" + fam)
-        if mismatch and (tag == "same" or is_out_of_fuel(tag)):
+        if mismatch and (tag == "same" or is_out_of_fuel(tag)) and not (swallow and swallowed):
             # modelling assumption (fuel does not steer): a violation of it is a tie problem unless outputs differ
             r.model_disagreement(case, f"budget {b}: dispatched instructions are not a prefix of the unlimited trace", "prefix of unlimited trace")
     if len(consumed_ok) > 1:
@@ -149,7 +171,7 @@ def check_program(r, case, p, res, model):
     if len(mruns) != len(runs):
         r.broken.append("model driver returned a different number of runs for " + p["id"])
         return
-    for (b, tag, c, rem, n, *_), m in zip(runs, mruns):
+    for (b, tag, c, rem, n, *_rest), m in zip(runs, mruns):
         mb, mst, mc, mr, mn = m
         impl_st = "ok" if tag == "same" else "OutOfFuel" if is_out_of_fuel(tag) else tag
         if tag == "same" and unl["t"] == "ok" and p["mode"] == "template":
@@ -160,6 +182,10 @@ def check_program(r, case, p, res, model):
             # was seen by the hook but not dispatched
             impl = (b, impl_st, n - 1 if impl_st == "OutOfFuel" else n)
             mod = (mb, mst, mn)
+            if swallow and impl_st == "OutOfFuel":
+                # after a swallowed error the caller goes on (free instructions, then the next
+                # refused one): only the outcome is compared (out_of_fuel_is_sticky)
+                impl, mod = impl[:2], mod[:2]
             if tag == "same":  # the render fails without fuel too: the model says "all dispatched"
                 impl = (b, "ok", n)
         if impl != mod:
@@ -175,7 +201,7 @@ def check_groups(r, progs):
     groups = collections.defaultdict(list)
     for case, p, res in progs:
         if p["group"] and res.get("thr") is not None and "runs" in res and res["unl"]["t"] == "ok":
-            cons = [c for (b, tag, c, *_rest) in res["runs"] if tag == "same" and c is not None]
+            cons = [run_[2] for run_ in res["runs"] if run_[1] == "same" and run_[2] is not None]
             groups[p["group"]].append((p["k"], res["thr"], cons[0] if cons else None, case))
     for g, rows in sorted(groups.items()):
         rows.sort()
@@ -222,14 +248,15 @@ def run(r):
               "Rust, includes, inheritance with super()/self.block()/blocks in loops, failing renders, expressions; a matrix of nested-evaluation "
               "edges {macro, imported macro, caller(), super() over 2 and 3 levels, self.block(), render_block, call_macro, apply, loop recursion} x 13 "
               "positions {emit, filter, set, concat, if, set block, filter block, list, test, ternary, with, argument, in a loop} and of "
-              "include / call block / {{ super() }} statements x 8 surroundings {plain, set block, filter block, autoescape, loop, with, if, ...}) with a work "
+              "include / call block / {{ super() }} statements x 8 surroundings {plain, set block, filter block, autoescape, loop, with, if, ...}; Rust "
+              "callbacks try_macro/try_block/try_apply that swallow the nested error x 13 positions x 3 continuations) with a work "
               "parameter k inside the nested evaluation, plus seeded random compositions; per program every budget in [0, thr+8] "
               "and 7 extremes up to 2^64-1; an evaluation = one render with a budget; a program is non-trivial when its threshold > 0")
     r.assumptions = ["the VM is abstracted to its executed instruction trace; that fuel does not influence which instructions run "
                      "(limited run = prefix of the unlimited run) is validated on every scanned render, not proved",
                      "budgets between thr+8 and 2^31 and between the listed extremes behave like the model (proved for the model for every budget)",
                      "programs that panic or differ between two unlimited renders are outside the property (none generated)"]
-    r.regen_tables(["C13_FUEL_COSTS"])
+    r.regen_tables(["C13_FUEL_COSTS", "C13_FUEL_USES", "C13_TRACK_SITE"])
     r.lean_prove("MJ.Props.C13", "MJ/Audit/C13.lean", extra_targets=["drive_c13"])
     exe = r.cargo_build("c13")
     if exe is None:
